@@ -10,7 +10,8 @@ MANIFEST = {
                  "counters; a small program logic over the state-monad parser models for the bit-level parsers) + "
                  "differential correspondence of outcome classes and projected values (extracted OCaml vs Go in isolated "
                  "worker processes, on the same hostile generators as the search) + hostile-input search over every anchored "
-                 "entry point incl. the SPS -> PPS -> slice pipelines",
+                 "entry point incl. the SPS -> PPS -> slice pipelines; field-level guard sweep (every guarded count / range field of the "
+                 "six parameter-set / slice parsers at c-1, c, c+1, 2c, 2c+1, 255, 256, 65535) in correspondence and search",
     "level_text": "Theorems, for ALL byte lists with no hypothesis (five files: coq/c16/C16Theorems.v, C16TheoremsParse.v, "
                   "C16TheoremsAux.v, C16TheoremsConfRec.v, C16TheoremsHevc.v; every theorem closed under the global context): a value or an error, never Panic, never "
                   "OutOfFuel, iterations and sizes of built lists bounded linearly in the input, for (1) each length-field NAL-unit "
@@ -35,18 +36,32 @@ MANIFEST = {
                   "data-derived fuel, proved equal to it wherever it is defined): Err or Ok, never Panic (ShortTermRefPicSets[idx-deltaIdx] "
                   "shown in range), every data-driven loop within 8|nalu|+10 iterations; the slice header for EVERY map whose entries satisfy "
                   "the boolean predicates hsps_wfb/hpps_wfb, which the SPS/PPS theorems show to hold of everything the parsers return; the "
-                  "three-stage pipeline hostile SPS -> PPS -> slice composed (C16_hevc_ParsePSAndSlice_total). PARTIAL: a PPS selecting "
-                  "pps_multilayer_extension / pps_3d_extension is outside the model (OutOfFuel in the PPS theorem, cases not compared). "
-                  "Explored only (search, no theorem): those two PPS extension bodies; field-level syntax writers "
+                  "three-stage pipeline hostile SPS -> PPS -> slice composed (C16_hevc_ParsePSAndSlice_total), no OutOfFuel case left: "
+                  "the PPS multilayer and 3D extension bodies (parseMultilayerExtension, parseColourMappingTable with its recursive octants, "
+                  "parse3dExtension, parseDeltaDlt), which C15 does not model, are C16's own totality skeletons of hevc/pps.go (reads, conditions, "
+                  "loop counts, error exits; decoded values dropped) and C16_hevc_ParsePPSNALUnit_total covers EVERY PPS. "
+                  "C16_hevc_ParseSPSNALUnit_rps_bound: every SPS returned has <= 64 short-term RPS, as many as announced, each NumDeltaPocs <= 95; "
+                  "hsps_wfb asks NumDeltaPocs <= 254 because Go's `for j := byte(0); j <= numDeltaPocs; j++` does not end for 255 (the guard "
+                  "constants 64 / 16 of hevc/sps.go are what keeps 255 out of reach: with 64 -> 255 a chain of 225 predicted sets hangs the parser; "
+                  "the search has that unit). (9) av1: CodecConfRec.Size / Encode for EVERY record value (the fixed writer is exactly filled, never "
+                  "its error) and decode-then-encode = identity on every accepted byte input (the package has no String). (10) SEI String / Payload "
+                  "of the remaining messages: MDCV / CLL Payload (sub-slices at a running position, partial) for every message value and after "
+                  "decoding every payload; String of every decoded registered / CEA-608 / unregistered message: no partial operation fails and the "
+                  "text is <= 4 bytes per payload byte + 200 (render-cost model; the real length is checked against the same bound on every run). "
+                  "Explored only (search, no theorem): field-level syntax writers "
                   "for AVC and HEVC SPS/PPS/slice drive the pipelines SPS -> PPS -> slice, SPS -> SEI and config record -> parameter sets "
                   "-> slice with 0/1/2 hostile fields per stage (each ue/se/u field at 0, 1, max-1, max, max+1, 255, 256, 2^16-1, 2^32-1 ...), "
-                  "all slice types, tool flags on; String/Payload of the remaining messages; cmd/mp4ff-nallister / pslister on hostile files.",
+                  "all slice types, tool flags on; worst-case short-term RPS chains; SEIType.String and the Sprintf-only String methods (PicTimingHevc, "
+                  "MDCV, CLL: no index or slice expression); cmd/mp4ff-nallister / pslister on hostile files.",
     "level_note": "Trusted: Coq kernel, extraction, OCaml/Go glue, worker classification (wall-clock budget, runtime/metrics "
                   "allocation counter, watchdog + ulimit -v). Models of other properties are imported read-only (C13 reader, C14 "
                   "scanners, C15 AVC parsers, C17 SEI, C18 AAC); where they are total but Go indexes, C16 wraps them with partial "
                   "operations and proves agreement. C15's constant loop caps are replaced by data-derived fuel in C16ParseModel.v / "
-                  "C16HevcParseModel.v (text generated from C15's, agreement proved). The HEVC reference context of the correspondence omits "
-                  "the one reference PPS the C15 model does not cover. "
+                  "C16HevcParseModel.v (text generated from C15's, agreement proved wherever C15's model is defined). The PPS multilayer / 3D "
+                  "skeletons and the av1 Encode model (byte-level: bits.FixedSliceWriter packing not re-modelled) are C16's own and rest on the "
+                  "correspondence (class for the skeletons: hpps has no field for their content; Size + bytes for Encode). The model's "
+                  "rep_n (NumDeltaPocs + 1) is the Go byte loop only for NumDeltaPocs <= 254, which the RPS-bound theorem establishes. "
+                  "Hang detection: one confirmation run of 5 s per timed-out case, at most 2 confirmed hangs are waited for per phase. "
                   "Go int is taken to be 64 bit (no wrap of len+2^32). Real time and heap are observed, not proved.",
 }
 
@@ -118,10 +133,11 @@ def run(ctx):
         "parsers = coq/c15/C15Model.v with data-derived loop fuel, avc.GetSliceTypeFromNALU), C16AuxModel.v (partial-operation "
         "wrappers of the C17 SEI decoders, ExtractSEIData with the ReadBytes loop, ADTS scan with counters), C16SeiNaluModel.v "
         "(avc/hevc ParseSEINalu), C16ConfRecModel.v (AVC/HEVC/AV1 configuration records), C16HevcParseModel.v + C16HevcPipeModel.v (HEVC SPS/PPS/slice header "
-        "over coq/c15/C15HevcModel.v, pipelines), models of C14 (Annex B) and C18 (ADTS/ASC) "
+        "over coq/c15/C15HevcModel.v + own skeletons of the PPS multilayer / 3D extension parsers, pipelines), C16Av1EncModel.v (av1 Size / Encode), "
+        "C16SeiStrModel.v (MDCV / CLL Payload, String render costs), models of C14 (Annex B) and C18 (ADTS/ASC) "
         "imported read-only",
         "outcome classification by the harness parent: ok|err from the call, panic by recover, hang by wall clock "
-        "(2 s, confirmed with 6 s), overalloc by allocation counter > 512*len+1MiB or runtime out-of-memory abort",
+        "(2 s inside a chunk, then one confirmation run of 5 s on a fresh worker), overalloc by allocation counter > 512*len+1MiB or runtime out-of-memory abort",
     ]
     ctx.assumptions += ["Go int is 64 bit and len(sample) < 2^62 (positions cannot wrap)",
                         "allocation is counted in appended elements in the model; bytes are observed on the Go side only"]
@@ -149,7 +165,7 @@ def run(ctx):
         "cases": len(lines), "mismatches": len(mism), "distinct_cases": distinct, "classes": classes,
         "outside_model": outside,  # always 0: every case is compared (the PPS multilayer / 3D extension bodies are modelled)
         "distribution": "stage 2/3 (hevc SPS/PPS/slice + hevc pipelines SPS->PPS->slice, SPS->SEI, confrec->PS->slice; avc SPS/PPS/slice/GetSliceType/ParsePSAndSlice pipeline, avc+hevc ParseSEINalu, ExtractSEIData, 8 SEI decoders, "
-                        "ADTS, ASC, 7 Annex B helpers): the search generators (captured seeds, every prefix of a seed, mutants, field soups with "
+                        "ADTS, ASC, 7 Annex B helpers, av1 decode->Size/Encode and Encode of arbitrary record values with every value of each header byte): the search generators (captured seeds, every prefix of a seed, guard sweep = one unit per guarded ue field and value in {c-1,c,c+1,2c,2c+1,255,256,65535} with the announced elements behind it, worst-case RPS chains of 2..255 sets, mutants, field soups with "
                         "hostile ue(v), structured pipelines, raw short inputs), n/20 per target; reference parameter sets sent in CTX lines and "
                         "parsed by the model itself; sei.DecodePicTimingHevcSEI on fixed + random/field-soup payloads x random external flags and widths; 15 walkers on: fixed witnesses; every string over {00,01,04,fc,ff} up to length 3 (5 thorough); "
                         "12 hostile 32-bit length fields x every tail over {00,05,ff} of length 1..4 (6 thorough); "
@@ -211,7 +227,7 @@ def run(ctx):
     for p in prs:
         ctx.proof_violation_if_broken(p, "c16 search: %d evaluations, no failing input" % ctx.notes.get("search_evaluations", 0))
     ctx.cov["rule"] = ("corr: outcome class (ok|err|panic|hang|overalloc) and value of the 15 modelled walkers and class + projected "
-                       "values of 45 more modelled entry points on every generated sample; distinct = distinct (function,input,arg,class,value) lines; search: every target must end in ok|err "
+                       "values of 47 more modelled entry points on every generated sample; distinct = distinct (function,input,arg,class,value) lines; search: every target must end in ok|err "
                        "with allocation <= 512*len+1MiB inside the wall-clock budget, each call in a worker subprocess")
 
 
